@@ -7,7 +7,8 @@
 From Coq Require Import ZArith List Bool Lia.
 Import ListNotations.
 Require Import Base.Py Base.ZList Gen.Gen_tags Model.Splice Model.Fam_flac
-  Proofs.Fam_flac_codec Proofs.Fam_flac_walk Proofs.Fam_flac_save Proofs.Fam_flac_thms Proofs.Fam_flac_final Proofs.Fam_flac_examples.
+  Proofs.Fam_flac_codec Proofs.Fam_flac_walk Proofs.Fam_flac_save Proofs.Fam_flac_thms Proofs.Fam_flac_final Proofs.Fam_flac_extra Proofs.Fam_flac_session Proofs.Fam_flac_examples.
+Require Import Base.FileModel Proofs.FileLemmas.
 Open Scope Z_scope.
 
 Theorem C02_flac_save : forall f t o f', flac_wf f = true -> o_deleteid3 o = false -> flac_save f t o = Ok f' ->
@@ -51,6 +52,43 @@ Theorem C02_flac_save_obj : forall p bs a, prefix_ok p -> bs <> [] -> Forall blo
     flac_parse f' = Ok (mkFlac p (nonpad bs1 ++ [pad_block (padlen (o_cb o) (blocks_extent bs) bs1 (zlen a))]) a).
 Proof. exact save_obj_layout. Qed.
 Print Assumptions C02_flac_save_obj.
+
+(* the explicit exception deleteid3=True: the ID3v2 prefix is removed and an ID3v1 trailer (last 128 bytes starting
+   with "TAG") is cut off; blocks and audio are otherwise the same.  The last clause needs at least 128 bytes of
+   audio: on a shorter file mutagen's ID3v1 test looks at (and may cut) bytes of the metadata region. *)
+Theorem C02_flac_deleteid3_partial : forall f t o f', flac_wf f = true -> o_deleteid3 o = true -> flac_save f t o = Ok f' ->
+  exists s g s', flac_parse f = Ok s /\ f' = strip_id3v1 g /\ flac_parse g = Ok s' /\
+    fprefix s' = [] /\ foreign_blocks (fblocks s') = foreign_blocks (fblocks s) /\ faudio s' = faudio s /\
+    hd_error (fblocks s') = hd_error (fblocks s) /\
+    find is_vcb (fblocks s') = Some (mkB 4 (vc_render t) (-1)) /\
+    (128 <= zlen (faudio s) -> flac_parse f' = Ok (mkFlac [] (fblocks s') (strip_id3v1 (faudio s)))).
+Proof. exact final_deleteid3. Qed.
+Print Assumptions C02_flac_deleteid3_partial.
+
+(* the file effect of FLAC._save is the pure splice: resize_bytes(fileobj, available, len(data), header); seek; write
+   run over the resize_bytes REGENERATED from mutagen/_util.py (C11), every buffer size, both seek flavours *)
+Theorem C02_flac_splice_prog : forall real part BUF, 1 <= BUF -> forall f s data pos, flac_parse f = Ok s ->
+  fst (splice_prog BUF (zlen (fprefix s) + 4) (blocks_extent (fblocks s)) data (mkF f pos (benign real part))) = Ok tt /\
+  fdata (snd (splice_prog BUF (zlen (fprefix s) + 4) (blocks_extent (fblocks s)) data (mkF f pos (benign real part)))) =
+    splice f (zlen (fprefix s) + 4) (blocks_extent (fblocks s)) data.
+Proof. exact final_splice_prog. Qed.
+Print Assumptions C02_flac_splice_prog.
+
+Example C02_flac_ex_deleteid3 : flac_wf ex_file_v1 = true /\
+  match flac_save ex_file_v1 ex_new (mkOpts None true) with
+  | Ok f' => match flac_parse f' with
+             | Ok s' => (fprefix s', map bcode (fblocks s'), zlen (faudio s'))
+             | Raise _ => ([], [], -1) end
+  | Raise _ => ([], [], -2) end = ([], [0; 2; 4; 1], 136).
+Proof. exact ex_deleteid3. Qed.
+
+(* histories through a LIVE object (the FLAC instance is kept across reload / add_tags / save / delete / module delete,
+   its block list possibly stale): sess_step is the function the harness runs next to mutagen on every history *)
+Theorem C02_flac_session : forall ops f, flac_wf f = true ->
+  flac_wf (ss_file (fold_left sess_step ops (mkSess f None))) = true /\
+  preserved f (ss_file (fold_left sess_step ops (mkSess f None))).
+Proof. exact session_wf. Qed.
+Print Assumptions C02_flac_session.
 
 Example C02_flac_ex_wf : flac_wf ex_file = true /\ flac_wf ex_notags = true.
 Proof. exact ex_wf. Qed.
